@@ -125,5 +125,3 @@ func init() {
 		return r
 	}
 }
-
-
